@@ -51,15 +51,17 @@ var steps = []time.Duration{0, 250 * time.Millisecond, 1250 * time.Millisecond, 
 var stepWeights = []int{30, 14, 20, 14, 12, 10}
 
 var paths = map[string]authsim.Set{
-	"/v2/":                     authsim.NewSet(),
-	"/v2/a/manifests/x":        authsim.NewSet("repository:a:pull"),
-	"/v2/a/blobs/uploads/":     authsim.NewSet("repository:a:pull", "repository:a:push"),
-	"/v2/a/push-only":          authsim.NewSet("repository:a:push"),
-	"/v2/catalog/manifests/x":        authsim.NewSet("repository:catalog:pull"),
-	"/v2/_catalog":             authsim.NewSet("registry:catalog:*"),
-	"/v2/a/blobs/mount-from-b": authsim.NewSet("repository:a:pull", "repository:a:push", "repository:catalog:pull"),
+	"/v2/":                      authsim.NewSet(),
+	"/v2/a/manifests/x":         authsim.NewSet("repository:a:pull"),
+	"/v2/a/blobs/uploads/":      authsim.NewSet("repository:a:pull", "repository:a:push"),
+	"/v2/a/push-only":           authsim.NewSet("repository:a:push"),
+	"/v2/catalog/manifests/x":   authsim.NewSet("repository:catalog:pull"),
+	"/v2/_catalog":              authsim.NewSet("registry:catalog:*"),
+	"/v2/a/manifests/del":       authsim.NewSet("repository:a:delete"),
+	"/v2/catalog/manifests/del": authsim.NewSet("repository:catalog:delete"),
+	"/v2/a/blobs/mount-from-b":  authsim.NewSet("repository:a:pull", "repository:a:push", "repository:catalog:pull"),
 }
-var pathList = []string{"/v2/", "/v2/a/manifests/x", "/v2/a/manifests/x", "/v2/a/blobs/uploads/", "/v2/a/push-only", "/v2/catalog/manifests/x", "/v2/catalog/manifests/x", "/v2/_catalog", "/v2/a/blobs/mount-from-b"}
+var pathList = []string{"/v2/", "/v2/a/manifests/x", "/v2/a/manifests/x", "/v2/a/blobs/uploads/", "/v2/a/push-only", "/v2/catalog/manifests/x", "/v2/catalog/manifests/x", "/v2/_catalog", "/v2/a/blobs/mount-from-b", "/v2/a/manifests/del", "/v2/catalog/manifests/del"}
 
 func weighted(rng *rand.Rand, w []int) int {
 	tot := 0
@@ -136,7 +138,7 @@ func newConv(run *evid.Run, rng *rand.Rand) *conv {
 		rl.NoPOST = rng.IntN(10) < 3
 		d := realmDesc{Host: rh, NoPOST: rl.NoPOST}
 		if rng.IntN(4) == 0 {
-			rl.Allowed = authsim.MaskSet(rng.IntN(16) | 1<<rng.IntN(4))
+			rl.Allowed = authsim.MaskSet(rng.IntN(1<<len(authsim.Atoms)) | 1<<rng.IntN(len(authsim.Atoms)))
 			d.Allowed, d.Overwide = rl.Allowed, true
 		}
 		rl.RequireCreds = rng.IntN(10) == 0
@@ -253,7 +255,7 @@ func (cv *conv) genCall() authsim.CallSpec {
 	case x < 85:
 		spec.Required = authsim.NewSet()
 	default:
-		spec.Required = authsim.MaskSet(rng.IntN(16))
+		spec.Required = authsim.MaskSet(rng.IntN(1 << len(authsim.Atoms)))
 	}
 	switch x := rng.IntN(100); {
 	case x < 25:
@@ -261,7 +263,7 @@ func (cv *conv) genCall() authsim.CallSpec {
 	case x < 50:
 		spec.Desired = authsim.NewSet()
 	default:
-		spec.Desired = authsim.MaskSet(rng.IntN(16))
+		spec.Desired = authsim.MaskSet(rng.IntN(1 << len(authsim.Atoms)))
 	}
 	if !spec.NoInfo && len(spec.Required) > 0 && rng.IntN(6) == 0 {
 		spec.RequiredText = authsim.RenderScope(rng, spec.Required)
